@@ -39,7 +39,7 @@ package priority
 //@ event send dsc.output (v)
 //@   requires [C01 C15] capacity-never-exceeded: gInfl < dsc.opts.HandlersQuantity
 //@   requires [C15] no-delivery-after-a-divider-fault: !gDivErr
-//@   requires [C07 C15] nothing-after-close: !gOutClosed
+//@   requires [C02 C07 C15] nothing-after-close: !gOutClosed
 //@   requires [C02] delivers-the-item-just-received-under-its-priority: gPendSet && v.Priority == gPendP && v.Item == gIn[gPendP][gInN[gPendP] - 1]
 //@   requires [C02] exactly-once-in-order: gOutNP[gPendP] < gInN[gPendP] && (gOutNP[gPendP] + 1 == gInN[gPendP])
 //@   effect gInfl := gInfl + 1
@@ -59,18 +59,18 @@ package priority
 //@ event recv dsc.interrupter.C ()
 
 //@ event send dsc.err (e)
-//@   requires [C07 C15] reported-error-is-the-divider-fault: gDivErr ==> e == ErrDividerBad
-//@   requires [C07 C15] only-real-errors-are-sent: e != nil
-//@   requires [C07] error-only-after-a-divider-fault: gDivErr
+//@   requires [C02 C07 C15] reported-error-is-the-divider-fault: gDivErr ==> e == ErrDividerBad
+//@   requires [C02 C07 C15] only-real-errors-are-sent: e != nil
+//@   requires [C02 C07] error-only-after-a-divider-fault: gDivErr
 
 //@ event close dsc.output
 //@   requires [C02] everything-received-was-delivered: gDivErr || (!gPendSet && (forall k :: gOutNP[k] == gInN[k]))
 //@   requires [C07 C15] closes-only-when-nothing-is-in-flight: gInfl == 0
-//@   requires [C07] closes-only-when-all-inputs-are-closed-and-empty: gDivErr || (forall k :: in(gPset, k) ==> in(gClosedIn, k))
+//@   requires [C02 C07] closes-only-when-all-inputs-are-closed-and-empty: gDivErr || (forall k :: in(gPset, k) ==> in(gClosedIn, k))
 //@   effect gOutClosed := true
 //@ event close dsc.err
 //@   requires [C07 C15] closes-only-when-nothing-is-in-flight: gInfl == 0
-//@   requires [C07] closes-only-when-all-inputs-are-closed-and-empty: gDivErr || (forall k :: in(gPset, k) ==> in(gClosedIn, k))
+//@   requires [C02 C07] closes-only-when-all-inputs-are-closed-and-empty: gDivErr || (forall k :: in(gPset, k) ==> in(gClosedIn, k))
 //@ event close dsc.feedback
 
 // C15: the calling convention of the divider is an obligation at every call through a
@@ -82,7 +82,7 @@ package priority
 //@   requires [C15] dividend-at-most-handlers-quantity: dividend <= gH
 //@   requires [C15] distribution-not-nil: distribution != nil
 //@   modifies content(distribution), gDivErr
-//@   ensures [C07 C15] gDivErr <==> (old(gDivErr) || (msum(distribution) != old(msum(distribution)) && msum(distribution) - old(msum(distribution)) != dividend))
+//@   ensures [C02 C07 C15] gDivErr <==> (old(gDivErr) || (msum(distribution) != old(msum(distribution)) && msum(distribution) - old(msum(distribution)) != dividend))
 
 // Well-formedness of the discipline state.
 //@ pred WF(dsc)
@@ -121,10 +121,10 @@ package priority
 //@   requires [* C15] distribution != nil
 //@   requires [* C01 C15] msum(distribution) == 0
 //@   modifies content(distribution), gDivErr
-//@   ensures [* C01] honest-or-error: result == nil ==> (msum(distribution) == 0 || msum(distribution) == dividend)
-//@   ensures [C07 C15] fault-is-reported: (gDivErr && !old(gDivErr)) ==> result == ErrDividerBad
-//@   ensures [C07 C15] error-only-on-fault: result != nil ==> gDivErr
-//@   ensures [C07 C15] old(gDivErr) ==> gDivErr
+//@   ensures [* C01 C15] honest-or-error: result == nil ==> (msum(distribution) == 0 || msum(distribution) == dividend)
+//@   ensures [C02 C07 C15] fault-is-reported: (gDivErr && !old(gDivErr)) ==> result == ErrDividerBad
+//@   ensures [C02 C07 C15] error-only-on-fault: result != nil ==> gDivErr
+//@   ensures [C02 C07 C15] old(gDivErr) ==> gDivErr
 
 //@ func (*Discipline).calcVacants
 //@   requires [*] WF(dsc)
@@ -210,20 +210,20 @@ package priority
 //@   requires [* C15] vacants <= gH
 //@   modifies content(dsc.tactic), dsc.uncrowded, anyelems(dsc.uncrowded), gDivErr
 //@   ensures [* C01] result1 == nil ==> (msum(dsc.tactic) == 0 || msum(dsc.tactic) == vacants)
-//@   ensures [C07 C15] (gDivErr && !old(gDivErr)) ==> result1 == ErrDividerBad
-//@   ensures [C07 C15] old(gDivErr) ==> gDivErr
+//@   ensures [C02 C07 C15] (gDivErr && !old(gDivErr)) ==> result1 == ErrDividerBad
+//@   ensures [C02 C07 C15] old(gDivErr) ==> gDivErr
 //@   ensures [*] dsc.uncrowded.arr == 0 || dsc.uncrowded.arr != dsc.priorities.arr
-//@   ensures [C07 C15] result1 != nil ==> gDivErr
+//@   ensures [C02 C07 C15] result1 != nil ==> gDivErr
 
 //@ func (*Discipline).calcTactic
 //@   requires [*] WF(dsc)
 //@   ensures [*] WF(dsc)
 //@   modifies content(dsc.tactic), dsc.uncrowded, anyelems(dsc.uncrowded), gDivErr
 //@   ensures [* C01] (result1 == nil && result0) ==> RINV(dsc)
-//@   ensures [C07 C15] (gDivErr && !old(gDivErr)) ==> result1 == ErrDividerBad
-//@   ensures [C07 C15] old(gDivErr) ==> gDivErr
+//@   ensures [C02 C07 C15] (gDivErr && !old(gDivErr)) ==> result1 == ErrDividerBad
+//@   ensures [C02 C07 C15] old(gDivErr) ==> gDivErr
 //@   ensures [*] dsc.uncrowded.arr == 0 || dsc.uncrowded.arr != dsc.priorities.arr
-//@   ensures [C07 C15] result1 != nil ==> gDivErr
+//@   ensures [C02 C07 C15] result1 != nil ==> gDivErr
 
 //@ func (*Discipline).getOneFeedback
 //@   requires [*] WF(dsc)
@@ -235,19 +235,19 @@ package priority
 //@   modifies content(dsc.tactic), content(dsc.actual), dsc.uncrowded, anyelems(dsc.uncrowded), gDivErr, gInfl, gInflP, gClock
 //@   ensures [*] WF(dsc)
 //@   ensures [* C01] result == nil ==> RINV(dsc)
-//@   ensures [C07 C15] (gDivErr && !old(gDivErr)) ==> result == ErrDividerBad
-//@   ensures [C07 C15] old(gDivErr) ==> gDivErr
+//@   ensures [C02 C07 C15] (gDivErr && !old(gDivErr)) ==> result == ErrDividerBad
+//@   ensures [C02 C07 C15] old(gDivErr) ==> gDivErr
 //@   loop 0
 //@     invariant [*] WF(dsc)
-//@     invariant [C07 C15] gDivErr == old(gDivErr)
-//@   ensures [C07 C15] result != nil ==> gDivErr
+//@     invariant [C02 C07 C15] gDivErr == old(gDivErr)
+//@   ensures [C02 C07 C15] result != nil ==> gDivErr
 
 //@ func (*Discipline).markInputAsDrained
 //@   requires [*] dsc != nil && dsc.inputs != nil
 //@   modifies content(dsc.inputs)
-//@   ensures [* C07] forall k :: dom(dsc.inputs, k) <==> (old(dom(dsc.inputs, k)) || k == priority)
-//@   ensures [* C07] forall k :: k != priority ==> dsc.inputs[k] == old(dsc.inputs[k])
-//@   ensures [* C07] dsc.inputs[priority].Drained && dsc.inputs[priority].Channel == old(dsc.inputs[priority].Channel)
+//@   ensures [* C02 C07] forall k :: dom(dsc.inputs, k) <==> (old(dom(dsc.inputs, k)) || k == priority)
+//@   ensures [* C02 C07] forall k :: k != priority ==> dsc.inputs[k] == old(dsc.inputs[k])
+//@   ensures [* C02 C07] dsc.inputs[priority].Drained && dsc.inputs[priority].Channel == old(dsc.inputs[priority].Channel)
 
 // DRAINED: a Drained flag is set only for an input that was observed closed.
 // C02: between two items nothing is pending and everything received was delivered.
@@ -256,7 +256,7 @@ package priority
 //@   [C02] forall k :: gOutNP[k] <= gInN[k]
 
 //@ pred DRAINED(dsc)
-//@   [C07] forall k :: (dom(dsc.inputs, k) && dsc.inputs[k].Drained) ==> in(gClosedIn, k)
+//@   [C02 C07] forall k :: (dom(dsc.inputs, k) && dsc.inputs[k].Drained) ==> in(gClosedIn, k)
 
 //@ func (*Discipline).send
 //@   requires [C02] gPendSet && gPendP == priority && item == gIn[priority][gInN[priority] - 1] && gOutNP[priority] < gInN[priority] && (gOutNP[priority] + 1 == gInN[priority])
@@ -266,8 +266,8 @@ package priority
 //@   requires [*] WF(dsc)
 //@   requires [* C01] RINV(dsc)
 //@   requires [* C01] dsc.tactic[priority] >= 1
-//@   requires [C07 C15] !gDivErr
-//@   requires [C07 C15] !gOutClosed
+//@   requires [C02 C07 C15] !gDivErr
+//@   requires [C02 C07 C15] !gOutClosed
 //@   modifies content(dsc.tactic), content(dsc.actual), gInfl, gInflP, gClock, gIn, gInN, gOutNP, gPendSet, gPendP
 //@   ensures [*] WF(dsc)
 //@   ensures [* C01] RINV(dsc)
@@ -280,20 +280,20 @@ package priority
 //@   requires [*] WF(dsc)
 //@   requires [*] in(gPset, priority)
 //@   requires [* C01] RINV(dsc)
-//@   requires [C07 C15] !gDivErr
-//@   requires [C07 C15] !gOutClosed
-//@   requires [C07] DRAINED(dsc)
+//@   requires [C02 C07 C15] !gDivErr
+//@   requires [C02 C07 C15] !gOutClosed
+//@   requires [C02 C07] DRAINED(dsc)
 //@   modifies content(dsc.tactic), content(dsc.actual), content(dsc.inputs), gInfl, gInflP, gClock, gClosedIn, gIn, gInN, gOutNP, gPendSet, gPendP
 //@   ensures [*] WF(dsc)
 //@   ensures [* C01] RINV(dsc)
 //@   ensures [* C01] result == msum(dsc.actual) - old(msum(dsc.actual))
-//@   ensures [C07] DRAINED(dsc)
+//@   ensures [C02 C07] DRAINED(dsc)
 //@   loop 0
 //@     invariant [C02] SEQ2(dsc)
 //@     invariant [*] WF(dsc)
 //@     invariant [* C01] RINV(dsc)
 //@     invariant [* C01] processed == msum(dsc.actual) - old(msum(dsc.actual))
-//@     invariant [C07] DRAINED(dsc)
+//@     invariant [C02 C07] DRAINED(dsc)
 
 //@ func (*Discipline).iou
 //@   requires [C02] SEQ2(dsc)
@@ -301,40 +301,40 @@ package priority
 //@   requires [*] WF(dsc)
 //@   requires [*] in(gPset, priority)
 //@   requires [* C01] RINV(dsc)
-//@   requires [C07 C15] !gDivErr
-//@   requires [C07 C15] !gOutClosed
-//@   requires [C07] DRAINED(dsc)
+//@   requires [C02 C07 C15] !gDivErr
+//@   requires [C02 C07 C15] !gOutClosed
+//@   requires [C02 C07] DRAINED(dsc)
 //@   modifies content(dsc.tactic), content(dsc.actual), content(dsc.inputs), gInfl, gInflP, gClock, gClosedIn, gIn, gInN, gOutNP, gPendSet, gPendP
 //@   ensures [*] WF(dsc)
 //@   ensures [* C01] RINV(dsc)
 //@   ensures [* C01] result == msum(dsc.actual) - old(msum(dsc.actual))
-//@   ensures [C07] DRAINED(dsc)
+//@   ensures [C02 C07] DRAINED(dsc)
 //@   loop 0
 //@     invariant [C02] SEQ2(dsc)
 //@     invariant [*] WF(dsc)
 //@     invariant [* C01] RINV(dsc)
 //@     invariant [* C01] processed == msum(dsc.actual) - old(msum(dsc.actual))
-//@     invariant [C07] DRAINED(dsc)
+//@     invariant [C02 C07] DRAINED(dsc)
 
 //@ func (*Discipline).prioritize
 //@   requires [C02] SEQ2(dsc)
 //@   ensures [C02] SEQ2(dsc)
 //@   requires [*] WF(dsc)
 //@   requires [* C01] RINV(dsc)
-//@   requires [C07 C15] !gDivErr
-//@   requires [C07 C15] !gOutClosed
-//@   requires [C07] DRAINED(dsc)
+//@   requires [C02 C07 C15] !gDivErr
+//@   requires [C02 C07 C15] !gOutClosed
+//@   requires [C02 C07] DRAINED(dsc)
 //@   modifies content(dsc.tactic), content(dsc.actual), content(dsc.inputs), gInfl, gInflP, gClock, gClosedIn, gIn, gInN, gOutNP, gPendSet, gPendP
 //@   ensures [*] WF(dsc)
 //@   ensures [* C01] RINV(dsc)
 //@   ensures [* C01] result == msum(dsc.actual) - old(msum(dsc.actual))
-//@   ensures [C07] DRAINED(dsc)
+//@   ensures [C02 C07] DRAINED(dsc)
 //@   loop 0
 //@     invariant [C02] SEQ2(dsc)
 //@     invariant [*] WF(dsc)
 //@     invariant [* C01] RINV(dsc)
 //@     invariant [* C01] processed == msum(dsc.actual) - old(msum(dsc.actual))
-//@     invariant [C07] DRAINED(dsc)
+//@     invariant [C02 C07] DRAINED(dsc)
 
 //@ func (*Discipline).recalcTactic
 //@   requires [*] WF(dsc)
@@ -342,10 +342,10 @@ package priority
 //@   modifies content(dsc.tactic), dsc.useful, anyelems(dsc.useful), gDivErr
 //@   ensures [*] WF(dsc)
 //@   ensures [* C01] result1 == nil ==> RINV(dsc)
-//@   ensures [C07 C15] (gDivErr && !old(gDivErr)) ==> result1 == ErrDividerBad
-//@   ensures [C07 C15] old(gDivErr) ==> gDivErr
-//@   ensures [C07 C15] gDivErr ==> result1 != nil || old(gDivErr)
-//@   ensures [C07 C15] result1 != nil ==> gDivErr
+//@   ensures [C02 C07 C15] (gDivErr && !old(gDivErr)) ==> result1 == ErrDividerBad
+//@   ensures [C02 C07 C15] old(gDivErr) ==> gDivErr
+//@   ensures [C02 C07 C15] gDivErr ==> result1 != nil || old(gDivErr)
+//@   ensures [C02 C07 C15] result1 != nil ==> gDivErr
 
 //@ func (*Discipline).getLimitedFeedback
 //@   requires [*] WF(dsc)
@@ -356,13 +356,13 @@ package priority
 
 //@ func (*Discipline).isZeroActual
 //@   requires [*] dsc != nil && dsc.actual != nil
-//@   ensures [* C07 C15] result <==> msum(dsc.actual) == 0
+//@   ensures [* C02 C07 C15] result <==> msum(dsc.actual) == 0
 //@   loop 0
 //@     invariant [*] forall k :: in($visited, k) ==> dsc.actual[k] == 0
 
 //@ func (*Discipline).isDrainedInputs
 //@   requires [*] dsc != nil && dsc.inputs != nil
-//@   ensures [* C07] result <==> (forall k :: dom(dsc.inputs, k) ==> dsc.inputs[k].Drained)
+//@   ensures [* C02 C07] result <==> (forall k :: dom(dsc.inputs, k) ==> dsc.inputs[k].Drained)
 //@   loop 0
 //@     invariant [*] forall k :: in($visited, k) ==> dsc.inputs[k].Drained
 
@@ -378,42 +378,42 @@ package priority
 //@   requires [C02] SEQ2(dsc)
 //@   ensures [C02] SEQ2(dsc)
 //@   requires [*] WF(dsc)
-//@   requires [C07 C15] !gDivErr
-//@   requires [C07 C15] !gOutClosed
-//@   requires [C07] DRAINED(dsc)
+//@   requires [C02 C07 C15] !gDivErr
+//@   requires [C02 C07 C15] !gOutClosed
+//@   requires [C02 C07] DRAINED(dsc)
 //@   modifies content(dsc.tactic), content(dsc.actual), content(dsc.inputs), dsc.uncrowded, anyelems(dsc.uncrowded), dsc.useful, gDivErr, gInfl, gInflP, gClock, gClosedIn, gIn, gInN, gOutNP, gPendSet, gPendP
 //@   ensures [*] WF(dsc)
-//@   ensures [C07 C15] gDivErr ==> result1 == ErrDividerBad
-//@   ensures [C07 C15] result1 == nil ==> !gDivErr
-//@   ensures [C07] DRAINED(dsc)
-//@   ensures [C07 C15] result1 != nil ==> gDivErr
+//@   ensures [C02 C07 C15] gDivErr ==> result1 == ErrDividerBad
+//@   ensures [C02 C07 C15] result1 == nil ==> !gDivErr
+//@   ensures [C02 C07] DRAINED(dsc)
+//@   ensures [C02 C07 C15] result1 != nil ==> gDivErr
 
 //@ func (*Discipline).loop
 //@   requires [C02] SEQ2(dsc)
 //@   ensures [C02] SEQ2(dsc)
 //@   requires [*] WF(dsc)
-//@   requires [C07 C15] !gDivErr
-//@   requires [C07 C15] !gOutClosed
-//@   requires [C07] DRAINED(dsc)
+//@   requires [C02 C07 C15] !gDivErr
+//@   requires [C02 C07 C15] !gOutClosed
+//@   requires [C02 C07] DRAINED(dsc)
 //@   modifies content(dsc.tactic), content(dsc.actual), content(dsc.inputs), dsc.uncrowded, anyelems(dsc.uncrowded), dsc.useful, gDivErr, gInfl, gInflP, gClock, gClosedIn, gIn, gInN, gOutNP, gPendSet, gPendP
 //@   ensures [*] WF(dsc)
 //@   ensures [* C07 C15] gInfl == 0
-//@   ensures [C07 C15] gDivErr ==> result == ErrDividerBad
-//@   ensures [C07] result == nil ==> (forall k :: in(gPset, k) ==> in(gClosedIn, k))
-//@   ensures [C07 C15] result == nil ==> !gDivErr
-//@   ensures [C07 C15] result != nil ==> gDivErr
+//@   ensures [C02 C07 C15] gDivErr ==> result == ErrDividerBad
+//@   ensures [C02 C07] result == nil ==> (forall k :: in(gPset, k) ==> in(gClosedIn, k))
+//@   ensures [C02 C07 C15] result == nil ==> !gDivErr
+//@   ensures [C02 C07 C15] result != nil ==> gDivErr
 //@   loop 0
 //@     invariant [C02] SEQ2(dsc)
 //@     invariant [*] WF(dsc)
-//@     invariant [C07 C15] !gDivErr
-//@     invariant [C07] DRAINED(dsc)
+//@     invariant [C02 C07 C15] !gDivErr
+//@     invariant [C02 C07] DRAINED(dsc)
 
 //@ func (*Discipline).main
 //@   requires [C02] SEQ2(dsc)
 //@   requires [*] WF(dsc)
-//@   requires [C07 C15] !gDivErr
-//@   requires [C07 C15] !gOutClosed
-//@   requires [C07] DRAINED(dsc)
+//@   requires [C02 C07 C15] !gDivErr
+//@   requires [C02 C07 C15] !gOutClosed
+//@   requires [C02 C07] DRAINED(dsc)
 //@   modifies content(dsc.tactic), content(dsc.actual), content(dsc.inputs), dsc.uncrowded, anyelems(dsc.uncrowded), dsc.useful, gDivErr, gInfl, gInflP, gClock, gClosedIn, gOutClosed, gIn, gInN, gOutNP, gPendSet, gPendP
 
 //@ func Opts.isValid
@@ -428,17 +428,17 @@ package priority
 //@   ensures [*] result3 == nil ==> (result0 != nil && result2 != nil && result0 != result2 && fresh(result0) && fresh(result2) && result1.arr != 0 && fresh(result1.arr))
 //@   ensures [*] result3 == nil ==> (strictlyDesc(result1) && allIn(result1, gPset))
 //@   ensures [*] result3 == nil ==> (forall k :: in(gPset, k) ==> dom(result0, k))
-//@   ensures [* C07] result3 == nil ==> (forall k :: dom(result0, k) ==> !result0[k].Drained)
+//@   ensures [* C02 C07] result3 == nil ==> (forall k :: dom(result0, k) ==> !result0[k].Drained)
 //@   ensures [C15] creation-fault-is-reported: gDivErr ==> result3 == ErrDividerBad
 //@   ensures [C15] every-configured-priority-has-a-share: result3 == nil ==> (forall a :: 0 <= a && a < len(result1) ==> result2[result1[a]] >= 1)
-//@   ensures [C07 C15] result3 == nil ==> !gDivErr
+//@   ensures [C02 C07 C15] result3 == nil ==> !gDivErr
 //@   assume-arith append-len[3]
 //@   loop 0
 //@     invariant [*] inputs != nil && strategic != nil && inputs != strategic && fresh(inputs) && fresh(strategic) && priorities.arr != 0 && fresh(priorities.arr)
 //@     invariant [*] forall k :: dom(inputs, k) <==> in($visited, k)
 //@     invariant [*] forall a :: 0 <= a && a < len(priorities) ==> (in($visited, priorities[a]) && in(gPset, priorities[a]))
 //@     invariant [*] forall a, b :: 0 <= a && a < b && b < len(priorities) ==> priorities[a] != priorities[b]
-//@     invariant [* C07] forall k :: dom(inputs, k) ==> !inputs[k].Drained
+//@     invariant [* C02 C07] forall k :: dom(inputs, k) ==> !inputs[k].Drained
 //@     invariant [*] msum(strategic) == 0
 
 // The ghost state of a discipline that does not exist yet is empty; gPset / gH name the
